@@ -129,7 +129,14 @@ def run(R, tier, seed, driver_ok):
             kopt = [None, 1, 2, d - 1, d + 3][int(rng.randint(5))]
             nc = [None, 1, d][int(rng.randint(3))] if d > 1 else None
             Xl, yl = X, y
-            if rng.rand() < 0.4:
+            if rng.rand() < 0.35:
+                # exact duplicates inside a class: the k-th nearest same-class neighbour counts them
+                Xl = X.copy()
+                for _ in range(int(rng.randint(1, 3))):
+                    c_ = int(rng.choice(np.unique(y))); mem = np.nonzero(y == c_)[0]
+                    i_, j_ = rng.choice(mem, 2, replace=False)
+                    Xl[j_] = Xl[i_]
+            elif rng.rand() < 0.4:
                 # a class smaller than k: clipping of k must stay local to that class
                 small = int(np.unique(y)[0]); keep = np.ones(n, bool)
                 idx = np.nonzero(y == small)[0]; keep[idx[2:]] = False
